@@ -27,14 +27,14 @@ func init() {
 }
 
 type c18Cb struct {
-	Contains    string `json:"contains,omitempty"`
-	NotContains string `json:"not_contains,omitempty"`
-	Re          string `json:"re,omitempty"` // name of a generated regex
-	Sensitive   bool   `json:"case_sensitive,omitempty"`
-	NoReset     bool   `json:"no_reset_requested"` // ResetOutput defaults to true and the option can only set it to true
-	Once        bool   `json:"once,omitempty"`
-	Complete    bool   `json:"complete,omitempty"`
-	NextTimeout bool   `json:"next_timeout,omitempty"`
+	Contains    string  `json:"contains,omitempty"`
+	NotContains string  `json:"not_contains,omitempty"`
+	Re          string  `json:"re,omitempty"` // name of a generated regex
+	Sensitive   bool    `json:"case_sensitive,omitempty"`
+	NoReset     bool    `json:"no_reset_requested"` // ResetOutput defaults to true and the option can only set it to true
+	Once        bool    `json:"once,omitempty"`
+	Complete    bool    `json:"complete,omitempty"`
+	NextTimeout bool    `json:"next_timeout,omitempty"`
 	Answer      *string `json:"answer,omitempty"`
 }
 
